@@ -204,6 +204,9 @@ def main():
     c.rule = "%d integer symmetric matrices h (2x2 over {-1,0,1}, 3x3, 4x4 incl. zero / degenerate / block-diagonal) x 3 betas: all G_ij at 5 Matsubara + 2 off-axis points; chi and vertex for all (n=2) or sampled quadruples x 64 triples; non-trivial = distinct (h, quadruple)" % len(hs)
     c.trusted = ["TLC", "tools comparator evaluating Adj/Det (mpmath)"]
     c.assumptions = ["real symmetric h (complex Hermitian needs the complex build)", "tolerance chi: 1e-7 (1 + beta^2)"]
+    # the objects this property speaks about, under call histories of the documented workflow (spec/Workflow.tla; result shared with C01 etc.)
+    import workflow
+    workflow.attach(c, {"GF", "X", "V"}, "Green's function / two-particle function / vertex objects")
     c.finish()
 
 
